@@ -17,15 +17,15 @@ CHECKS = {
          "Every execution is a complete operation history on a fresh Connection whose transport logs each write with its boundaries; the oracle is a Vec<u8> of pending bytes. All length pairs meet every free-space value 0..=600; histories include unserializable messages and (buffer limit lowered to 4096 bytes by hook) messages sized against the limit - exact fit, no room for the terminator, +1, +300 bytes - at every position: a refused message contributes no bytes at any later flush and leaves the connection usable.",
          "Trusted: serde_json::to_vec as the JSON document of a message; the scripted WriteHalf accepts each write whole. Bounded: histories of <=4 (quick) / <=5 (thorough) operations, lengths from a boundary alphabet relative to free space, message sizes up to ~1.3 KB plus the limit-sized ones. Built with hook zlink_verif_small_buf (only the limit constant differs).", "4 C02"),
  "C06": ("zcheck", "stateless model checking of Chain/ReplyStream (DFS by re-execution over all chains x reply scripts x trailing frame x arrival chunkings, deviation-bounded mid-frame cuts and spurious Pending)",
-         "Every execution builds a real chain on a real Connection, sends it, and drives the returned stream poll by poll while the reply bytes arrive in driver-chosen chunks; the oracle is the owed-replies model written from the statement.",
+         "Every execution builds a real chain on a real Connection, sends it, and drives the returned stream poll by poll while the reply bytes arrive in driver-chosen chunks; the oracle is the owed-replies model written from the statement. Reply scripts: success, declared error, or a final reply that does not decode (after which the stream may give up or carry on, but must never take or wait for more frames than owed).",
          "Trusted: the reply scripts conform to the protocol. Bounded: chains of <=4 (quick) / <=6 (thorough) calls, <=2 continuing replies per `more` call, every subset of inter-frame cuts for <=3/4 calls, <=1/2 deviations otherwise.", "4 C06"),
  "C11": ("zcheck", "stateless model checking of ReplyStream with every yielded item held (DFS over chains x reply scripts x payload sizes x arrival chunkings); damage decided from the transport's read log, an allocator release log and a content comparison",
          "Same executions as C06 with reply sizes that do and do not force buffer growth; after every later item each held &str is checked: memory released since? written by a later transport read? content unchanged? Two genuine defects of the pinned tree are listed as known findings (call site ReplyStream, separate reads); any damage in another situation is reported.",
          "Trusted: the harness allocator moves a block on every growth (adversarial but legal). Bounded: chains <=3/4 calls, sizes {20,300} / {20,200,300,600}.", "4 C11"),
  "C17": ("zcheck", "exhaustive enumeration of executions of the real Read/WriteConnection at every size up to limit+600 (library limit lowered to 4096 by hook) x arrival patterns / pending amounts, plus the production-limit cases with the library as shipped",
-         "Every inbound frame size x {one arrival, malformed, unterminated+EOF, unterminated+silent, every single cut}, every outbound message length x every amount of earlier enqueued data x {enqueue, send}: below the limit accepted and correct, above limit+step refused with BufferOverflow and nothing written, buffers never beyond limit+step.",
-         "Trusted: hook zlink_verif_small_buf only changes the constant. Sizes in [limit, limit+256] are left free. Single frames only (a burst of small frames coalescing beyond the limit is outside the statement).", "4 C17"),
- "C08": ("zcheck", "stateless model checking of Server::run (DFS by re-execution over event histories: connects, bursts, cuts, short reads, delayed polls) against a per-connection sequential reference model",
+         "Every inbound frame size x {one arrival, malformed, unterminated+EOF, unterminated+silent, every single cut, behind a small frame}, every outbound message length x every amount of earlier enqueued data x {enqueue, send}: below the limit accepted and correct, above limit+step refused with BufferOverflow and nothing written, buffers never beyond limit+step.",
+         "Trusted: hook zlink_verif_small_buf only changes the constant. Sizes in [limit, limit+256] are left free. A frame that follows a small one is judged by its own size. Sustained pipelining: streams of 3x the limit made of small frames (8 sizes x 10 piece sizes) must be delivered completely with a bounded buffer.", "4 C17"),
+ "C08": ("zcheck", "stateless model checking of Server::run (DFS by re-execution over event histories: connects, bursts, cuts, short reads, delayed polls) against a per-connection sequential reference model; one phase has clients that hang up or stop taking writes while others are served",
          "Every execution drives a real Server over a scripted listener/transport poll by poll; after every poll-to-quiescence each connection's output and the service's call log are compared with the model (one reply or error per non-oneway call, nothing for oneway, in order, only on that connection); the server future must stay pending and keep accepting.",
          "Trusted: the test service's replies depend only on the call. Bounded: <=3/4 connections, <=5/6 calls in total, <=8/9 events, bursts from a 9-entry alphabet (plain, oneway, failing, oneway failing, oneway answered with a stream, pipelined mixes), <=2/3 deviations.", "4 C08"),
  "C09": ("zcheck", "stateless model checking of Server::run with a fault event (8 kinds) enabled at every position of every history",
@@ -59,13 +59,13 @@ CHECKS = {
          "Every sequence of <=8/10 operations with <=3 subscribers and <=3 state handles; per subscriber: items are values set after it subscribed, in order, each once, marked continuing; a drained subscriber has seen the latest value; a pending subscriber is woken by the next set; no end of stream while a state handle exists; tokio and smol observation logs equal; the 4 one-shot scenarios per crate.",
          "Trusted: the broadcast/oneshot channel libraries are linearizable, so cross-thread use reduces to these sequences.", "4 C20"),
  "C12": ("corpus", "exhaustive enumeration of a generated program corpus: every proxy method of a systematically enumerated trait corpus is compiled against /repo's macro and executed for every combination of boundary argument values x call forms x scripted replies",
-         "154 (quick) / 462 (thorough) generated proxy methods; the frame each call form writes is compared, as JSON value and member set, with the frame the generator derives from the declaration (method path, wire names, omitted None, flags); results are mapped as the receive classification says; streams yield one item per reply. A corpus that does not compile is a violation reported by the build step.",
+         "~180 (quick) / ~600 (thorough) generated proxy methods (incl. arguments named like protocol members and likely locals: method, parameters, more, error, call, conn ...; `no parameters` spelled absent / null / {} in turn); the frame each call form writes is compared, as JSON value and member set, with the frame the generator derives from the declaration (method path, wire names, omitted None, flags); results are mapped as the receive classification says; streams yield one item per reply. A corpus that does not compile is a violation reported by the build step.",
          "Trusted: the generator's reading of the declaration (PascalCase rule). Bounded: parameter lists of length <=2 exhaustively over 11 types, longer lists by position coverage.", "4 C12"),
  "C16": ("corpus", "exhaustive enumeration of a generated program corpus: every derived description of a systematically enumerated set of Rust types is compiled against /repo's derive macros and compared with the generator's own model of the type",
-         "~190 (quick) / ~700 (thorough) derived structs, enums and error enums covering every supported field type, every wrapper around every leaf and every pair of wrappers, raw-identifier fields, lifetimes, doc comments; TYPE / CUSTOM_TYPE / VARIANTS compared deeply; interfaces assembled from the derived descriptions are rendered and parsed back. The C14 defect (commented enum variant) is a listed known finding here too.",
+         "~190 (quick) / ~700 (thorough) derived structs, enums and error enums covering every supported field type, every wrapper around every leaf and every pair of wrappers, raw-identifier fields, lifetimes, doc comments attached in seven ways plus multi-line doc attributes, fields with serde attributes that keep them on the wire; TYPE / CUSTOM_TYPE / VARIANTS compared deeply; interfaces assembled from the derived descriptions are rendered and parsed back. The C14 defect (commented enum variant) is a listed known finding here too.",
          "Trusted: the generator's model of the mapping (written from the statement). Not asserted: Duration, paths, OsStr, network addresses, serde_json::Value; Option<Option<T>> is not generated.", "4 C16"),
  "C15": ("corpus", "exhaustive enumeration of a generated program corpus: every interface of a systematically enumerated IDL corpus is run through /repo's code generator at build time, compiled, and every method, type, enum value and error of every interface is exercised",
-         "60 (quick) / 400 (thorough) interfaces whose names cover acronyms, digits, camelCase, snake_case and Rust keywords; expectations (method path, parameter and output names, JSON shapes, enum spellings, error names) come from the IDL model; Rust-side names are read positionally from the generated code, never predicted. A corpus that does not compile is a violation.",
+         "60 (quick) / 400 (thorough) interfaces + 6 edge interfaces whose names cover acronyms, digits, underscore-digit, all-caps, camelCase, snake_case and Rust keywords, and whose output types include collections of nullable elements (replies carry nulls); expectations (method path, parameter and output names, JSON shapes, enum spellings, error names) come from the IDL model; Rust-side names are read positionally from the generated code, never predicted. A corpus that does not compile is a violation.",
          "Trusted: the harness's mirror of the parameter types the generator declares for each IDL type (needed to write argument expressions). Interfaces are non-recursive and collision-free.", "4 C15"),
 }
 
